@@ -163,9 +163,14 @@ class AE:
         def alg_init(self, _k=f'{tn}.{a["name"]}'):
             self._version_ = dawgie.VERSION(*ae.ver[('alg', _k)])
             self._svs = [c() for c in svclasses]
+            self._deps = None
 
         def deps(self, _a=a):
-            return [ae._ref(r) for r in _a.get('refs', [])]
+            # the same reference objects on every call: data loaded into the
+            # referenced implementation stays visible to run()
+            if self._deps is None:
+                self._deps = [ae._ref(r) for r in _a.get('refs', [])]
+            return self._deps
 
         def feedback(self, _a=a):
             return [ae._ref(r) for r in _a.get('fb', [])]
